@@ -230,10 +230,13 @@ impl Serializable for StackOutputs {
 
 impl Deserializable for StackOutputs {
     fn read_from<R: ByteReader>(source: &mut R) -> Result<Self, DeserializationError> {
-        let count = source.read_u32()?.try_into().expect("u32 must fit in a usize");
+        let count: usize = source.read_u32()?.try_into().expect("u32 must fit in a usize");
+        // the count is untrusted: make sure the elements are there before allocating space for them
+        source.check_eor(count.saturating_mul(core::mem::size_of::<u64>()))?;
         let stack = source.read_many::<u64>(count)?;
 
-        let count = source.read_u32()?.try_into().expect("u32 must fit in a usize");
+        let count: usize = source.read_u32()?.try_into().expect("u32 must fit in a usize");
+        source.check_eor(count.saturating_mul(core::mem::size_of::<u64>()))?;
         let overflow_addrs = source.read_many::<u64>(count)?;
 
         // the bytes are untrusted: apply the same validation as the constructor
